@@ -37,7 +37,7 @@ def expected_rets(case):
         b = slots[slot]
         e = min(b + cnt, n)
         slots[slot] = e
-        return b, list(range(b, e))
+        return b, (b, e)
 
     for op in prog:
         toks = op.split()
@@ -51,8 +51,8 @@ def expected_rets(case):
             if is_iter and completed:
                 out.append(["ret", "end"]); continue
             reserved += 1
-            b, ps = take(slot, 1, 1)
-            if ps:
+            b, (_, e1) = take(slot, 1, 1)
+            if e1 > b:
                 out.append(["ret", "item", str(b), str(val(b))] if name == "next" else ["ret", "value", str(val(b))])
             else:
                 completed = True
@@ -70,15 +70,17 @@ def expected_rets(case):
             if is_iter and completed:
                 out.append(["ret", "end"]); continue
             reserved += cnt
-            b, ps = take(slot, k, cnt)
-            if not ps:
+            b, (_, e1) = take(slot, k, cnt)
+            if e1 <= b:
                 if name == "chunk":
                     completed = True
                 out.append(["ret", "end"])
             else:
-                a = len(ps)
+                a = e1 - b
                 sk, j = take_params(k, a)
-                out.append(["ret", "chunk", str(b), str(a), str(a - j)] + [str(val(p)) for p in ps[sk:j]])
+                if j - sk > 1000000:
+                    raise Unsupported("astronomic consumption")
+                out.append(["ret", "chunk", str(b), str(a), str(a - j)] + [str(val(p)) for p in range(b + sk, b + j)])
         elif name == "bufnew":
             cnt = int(toks[1])
             if cnt == 0:
@@ -98,6 +100,8 @@ def expected_rets(case):
             visits = []
             if not (is_iter and completed):
                 b = slots[slot]
+                if n - b > 1000000:
+                    raise Unsupported("astronomic loop")
                 for p in range(b, n):
                     visits.append(p)
                     total = (total + val(p)) % W
